@@ -675,13 +675,21 @@ class FieldsJson(FieldValueBase):
         except ValueError as e:  # json.decoder.JSONDecodeError is derived from ValueError
             six.raise_from(InvalidValue(six.ensure_text(bytes(parsable), 'ascii', 'replace'), cls, 'value'), e)
 
+        if not isinstance(raw_values, dict):
+            raise InvalidValue(six.ensure_text(bytes(parsable), 'ascii', 'replace'), cls, 'value')
+
         attr_fields_dict = attr.fields_dict(cls)
 
-        return cls(**{
-            attribute_name: raw_values[validator_class.get_canonical_name()]
-            for attribute_name, validator_class in cls._get_attr_to_validator_type_dict(attr_fields_dict).items()
-            if validator_class.get_canonical_name() in raw_values
-        }), len(parsable)
+        try:
+            value = cls(**{
+                attribute_name: raw_values[validator_class.get_canonical_name()]
+                for attribute_name, validator_class in cls._get_attr_to_validator_type_dict(attr_fields_dict).items()
+                if validator_class.get_canonical_name() in raw_values
+            })
+        except TypeError as e:  # required member is missing or has a value of a wrong JSON type
+            six.raise_from(InvalidValue(six.ensure_text(bytes(parsable), 'ascii', 'replace'), cls, 'value'), e)
+
+        return value, len(parsable)
 
     def compose(self):
         attr_fields_dict = attr.fields_dict(type(self))
